@@ -119,6 +119,7 @@ func runHistory(r *hx.Rng, chainSeed uint64, base *govtypes.NetworkProperties, n
 	rs := addRecs(recs)
 
 	var steps []string
+	abort := false
 	cur := k.GetNetworkProperties(rctx(c))
 	other := func(what string) { // the record must not have moved
 		now := k.GetNetworkProperties(rctx(c))
@@ -243,12 +244,15 @@ func runHistory(r *hx.Rng, chainSeed uint64, base *govtypes.NetworkProperties, n
 			}
 		}
 		if !done {
-			js.Log = "proposal did not finish within the block budget (not judged)"
+			// it may still be enacted by a later block: the history ends here, so that no later step
+			// is judged against a write that is still in flight
+			js.Log = "proposal did not finish within the block budget (not judged; history ends)"
 			jh.Steps = append(jh.Steps, js)
 			other("unfinished proposal")
+			abort = true
 		}
 	}
-	for i := 0; i < nsteps; i++ {
+	for i := 0; i < nsteps && !abort; i++ {
 		switch r.Intn(10) {
 		case 0, 1, 2, 3:
 			doMsg()
